@@ -18,6 +18,39 @@ Theorem C06_cache_invariant :
 Proof. exact (fun reg b ops => run_inv reg ops (fresh b) (fresh_inv reg b)). Qed.
 Print Assumptions C06_cache_invariant.
 
+(* Cache coherence including chains of length 2, for EVERY registry whose
+   colliding instances are interchangeable and every history: a read returns
+   exactly what a dataset with the same data/configuration and an empty cache
+   returns, provided (guard 1) the cache did not change which recipe is
+   selected and (guard 2, [chain_recipe]) the selected recipe reads only
+   ingredients that are in its cache key, its method cannot reject its inputs,
+   and every required feature is stored or is itself computed from stored
+   features by such a recipe whose selection cannot depend on the cache
+   ([stable]). Not covered: chains of length >= 3, compute_emodulus, the
+   2-channel crosstalk correction. *)
+Theorem C06_read_coherent_chain_partial :
+  forall reg b ops f,
+    collide_ok reg = true ->
+    let st := run_state reg (fresh b) ops in
+    select SF reg st f = select SF reg (clear st) f ->
+    (forall r, select SF reg st f = Some r ->
+       chain_recipe reg (s_base st) r = true) ->
+    snd (read RF reg st f) = snd (read RF reg (clear st) f).
+Proof. exact history_read_coherent_chain2. Qed.
+Print Assumptions C06_read_coherent_chain_partial.
+
+(* ... instantiated with the generated table *)
+Theorem C06_read_coherent_chain_registry_partial :
+  forall b ops f,
+    let st := run_state registry (fresh b) ops in
+    select SF registry st f = select SF registry (clear st) f ->
+    (forall r, select SF registry st f = Some r ->
+       forallb (chain_feat_reg (s_base st)) (r_feats r) = true
+       /\ known_incomplete r = false) ->
+    snd (read RF registry st f) = snd (read RF registry (clear st) f).
+Proof. exact registry_read_coherent_chain. Qed.
+Print Assumptions C06_read_coherent_chain_registry_partial.
+
 (* Cache coherence, for EVERY registry whose colliding instances are
    interchangeable and every history: a read returns exactly what a dataset
    with the same data/configuration and an empty cache returns, provided
